@@ -19,6 +19,32 @@ from ..dataflow import Inliner, local_defs
 from ..loader import AnalysisError, FuncInfo, Program, calls_in, norm, walk_no_nested
 from ..minieval import PredUnsupported, ev
 from ..report import Ledger
+from ..absim import simp
+from ..scenarios import run_all, scenarios
+
+
+def check_trial(prog: Program, sc, rec) -> list[dict]:
+    """D5 (abstract heap): within one activation of an attempt_* function every proposal write of the
+    positions starts from the same version — a vetoed attempt is undone before the next one, so an
+    accepted attempt displaces the group by ONE operation result."""
+    out = []
+    by_frame: dict[tuple, list] = {}
+    for ev in rec.events:
+        if ev.kind == "write" and isinstance(ev.data, dict) and ev.data.get("obj") == "atoms" and ev.data.get("comp") == "P" and ".attempt_" in ev.func:
+            new = ev.data.get("new")
+            if isinstance(new, tuple) and new and new[0] in ("new", "scaled") and not ev.data.get("raw"):
+                by_frame.setdefault((ev.func, ev.frame), []).append(ev)
+    for (func, frame), evs in by_frame.items():
+        bases = [simp(e.data.get("old")) for e in evs]
+        if all(b == bases[0] for b in bases):
+            out.append({"status": "ok", "rule": "D5", "construct": f"{func}:{rec.driver}"})
+        else:
+            k = next(i for i, b in enumerate(bases) if b != bases[0])
+            out.append({"status": "violation", "rule": "D5", "construct": f"{func}:attempt-base", "where": evs[k].where,
+                        "detail": f"attempt #{k + 1} of one {func} call proposes from positions {str(bases[k])[:90]} instead of the positions the call started from ({str(bases[0])[:50]}): the previous vetoed attempt was not undone before retrying",
+                        "witness": f"scenario {rec.driver}×{rec.table}: check_move vetoes the first attempt and accepts the second — the group is displaced by the SUM of both operation results (path {' ; '.join(rec.path[-5:])})",
+                        "stmt": "attempt-base"})
+    return out
 
 
 def run(prog: Program, L: Ledger) -> None:
@@ -35,6 +61,19 @@ def run(prog: Program, L: Ledger) -> None:
     L.rule("D2", "moving indices = where(labels == chosen); chosen drawn from unique_labels = unique(labels[labels >= 0]); labels/unique_labels written only by set_labels")
     L.rule("D3", "when no label is eligible the move returns register_failure() before any write")
     L.rule("D4", "composite: candidates exclude labels already displaced in this call; one registration per child per path; success iff some child moved")
+    L.rule("D5", "every retry inside one attempt_* call proposes from the positions the call started from (a vetoed attempt is undone first), so an accepted attempt applies one operation result")
+    scs = [s for s in scenarios(prog, with_composites=True, iterations=1) if any("Displacement" in t.label() or "Exchange" in t.label() or "Cell" in t.label() for t in s.table if not isinstance(t, int))]
+    results = run_all(prog, "qsa.props.c11", scs)
+    nt = 0
+    for label, stats, findings, oks, err in results:
+        if err:
+            raise AnalysisError(f"scenario {label}: {err}")
+        nt += stats["trials"]
+        for rule, construct, n in oks:
+            L.ok(rule, construct, "", f"{n} activations")
+        for f in findings:
+            L.violation(f["rule"], f["construct"], f["where"], f["detail"], f["witness"], f.get("stmt", ""))
+    L.extra["abstract_trials"] = nt
 
     dm = prog.cls("DisplacementMove")
     att = dm.methods.get("attempt_displacement")
